@@ -197,6 +197,11 @@ def attr_bytes(a, unit, strtab):
         return pre + list(v) + [0]
     if f == "DW_FORM_strp":
         return pre + le(strtab[bytes(v)] if bytes(v) in strtab else strtab_add(strtab, bytes(v)), 4)
+    if f in STRX:
+        idx = strx_index(strtab, bytes(v))
+        return pre + (uleb(idx) if f == "DW_FORM_strx" else le(idx, STRX[f]))
+    if f == "DW_FORM_line_strp":
+        return pre + le(lstr_add(strtab, bytes(v)), 4)
     if f == "DW_FORM_exprloc":
         _, data = expr_layout(v)
         return pre + uleb(len(data)) + data
@@ -209,6 +214,28 @@ def attr_bytes(a, unit, strtab):
     raise ValueError("form not supported by the generator: " + f)
 
 
+# DWARF 5 indexed strings: an index into .debug_str_offsets (one table for the file, base 8)
+STRX = {"DW_FORM_strx1": 1, "DW_FORM_strx2": 2, "DW_FORM_strx3": 3, "DW_FORM_strx4": 4, "DW_FORM_strx": 0}
+STR_OFFSETS_BASE = 8
+
+
+def strx_index(strtab, s):
+    xi = strtab.setdefault("__xindex__", {})
+    if s not in xi:
+        xi[s] = len(xi)
+        if s not in strtab:
+            strtab_add(strtab, s)
+    return xi[s]
+
+
+def lstr_add(strtab, s):
+    lo = strtab.setdefault("__loff__", {})
+    if s not in lo:
+        lo[s] = strtab.get("__lsize__", 0)
+        strtab["__lsize__"] = lo[s] + len(s) + 1
+    return lo[s]
+
+
 def strtab_add(strtab, s):
     off = strtab["__size__"]
     strtab[s] = off
@@ -219,6 +246,9 @@ def strtab_add(strtab, s):
 
 def assign_abbrevs(forest):
     """one table per unit unless shared; codes numbered from 1 in order of first use"""
+    for u in forest.units:
+        if u.root is not None and any(a.form in STRX for d in u.dies() for a in d.attrs) and u.root.attr("DW_AT_str_offsets_base") is None:
+            u.root.attrs.append(Attr("DW_AT_str_offsets_base", "DW_FORM_sec_offset", STR_OFFSETS_BASE))
     for u in forest.units:
         if u.share is not None:
             owner = u.share
@@ -321,6 +351,14 @@ def layout(forest):
     strb = []
     for s in strtab["__order__"]:
         strb += list(s) + [0]
+    xi = strtab.get("__xindex__", {})
+    forest.str_offsets = []
+    if xi:
+        ents = [strtab[sx] for sx, _ in sorted(xi.items(), key=lambda kv: kv[1])]
+        forest.str_offsets = le(4 + 4 * len(ents), 4) + le(5, 2) + le(0, 2) + [b for e in ents for b in le(e, 4)]
+    forest.line_str = []
+    for sx, _ in sorted(strtab.get("__loff__", {}).items(), key=lambda kv: kv[1]):
+        forest.line_str += list(sx) + [0]
     return info, abbrev, strb, loc
 
 
@@ -343,6 +381,10 @@ def write_object(forest, path, symbols_asm=""):
             f.write('\t.section .debug_str,"MS",@progbits,1\n' + bytes_directive(strb))
         if loc:
             f.write('\t.section .debug_loc,"",@progbits\n' + bytes_directive(loc))
+        if getattr(forest, "str_offsets", None):
+            f.write('\t.section .debug_str_offsets,"",@progbits\n' + bytes_directive(forest.str_offsets))
+        if getattr(forest, "line_str", None):
+            f.write('\t.section .debug_line_str,"MS",@progbits,1\n' + bytes_directive(forest.line_str))
     subprocess.run(["as", "-o", path, src], check=True)
     return src
 
